@@ -1640,5 +1640,5 @@ func main() {
 		}
 	}
 	_ = hex.EncodeToString
-	run.Finish("case = one seeded scenario: 0-6 pre-existing header-only spaces (bit lengths 24-30, 1-3 proof directories, created directly or by a first keeper's ConfigureByBitLength, some removed), then 1-4 operations out of ConfigureBySize / ConfigureByPath / ConfigureByBitLength / ConfigureByFlags / Remove / restart (a quarter of the size calls through api.Server.ConfigureCapacity / ConfigureCapacityByDirs) with targets at sums of plot sizes +-1, the minimum +-1, k*PlotSize(24)+r, free space + plots and 2^62..2^64-1, then a restart comparison; two in five scenarios write miner.proof_dir in a non-canonical way for every keeper they construct (relative to the working directory, through "..", with a trailing "/" or "/."), while requests name the clean absolute path; every api.ConfigureCapacityByDirs response is compared per directory with the selection; non-trivial = at least one successful configure call selected >= 1 space and a restart comparison happened; distinct by hash of the operation list", run.N(100, 2500))
+	run.Finish("case = one seeded scenario: 0-6 pre-existing header-only spaces (bit lengths 24-30, 1-3 proof directories, created directly or by a first keeper's ConfigureByBitLength, some removed), then 1-4 operations out of ConfigureBySize / ConfigureByPath / ConfigureByBitLength / ConfigureByFlags / Remove / restart (a quarter of the size calls through api.Server.ConfigureCapacity / ConfigureCapacityByDirs) with targets at sums of plot sizes +-1, the minimum +-1, k*PlotSize(24)+r, free space + plots and 2^62..2^64-1, then a restart comparison; two in five scenarios write miner.proof_dir in a non-canonical way for every keeper they construct (relative to the working directory, through '..', with a trailing '/' or '/.'), while requests name the clean absolute path; every api.ConfigureCapacityByDirs response is compared per directory with the selection; non-trivial = at least one successful configure call selected >= 1 space and a restart comparison happened; distinct by hash of the operation list", run.N(100, 2500))
 }
